@@ -1,6 +1,8 @@
 # Random single-token operator mutants of /repo/src (development aid, DESIGN section 9c): writes numbered diffs to a /tmp directory;
 # evaluate them with tools/diffeval.py and read the SILENT ones. usage: opmut_genN.py <count> <seed> [outdir]
 import re, random, os, sys, difflib
+OUT=sys.argv[3] if len(sys.argv)>3 else "/tmp/opmut6"
+os.makedirs(OUT, exist_ok=True)
 random.seed(int(sys.argv[2]) if len(sys.argv)>2 else 5)
 REPO="/repo"
 FILES=["src/chess/mod.rs","src/chess/piece.rs","src/chess/gamestate.rs","src/chess/position.rs","src/chess/move_struct.rs","src/chess/zobrist.rs","src/search.rs","src/uci.rs"]
@@ -40,6 +42,6 @@ for n,(f,i,kind,old,new) in enumerate(out):
     lines=open(os.path.join(REPO,f)).read().split("\n")
     b=lines[:]; b[i]=new
     d="".join(difflib.unified_diff([x+"\n" for x in lines],[x+"\n" for x in b],"a/"+f,"b/"+f,n=3))
-    open("/tmp/opmut6/m%03d.diff"%n,"w").write(d)
-    open("/tmp/opmut6/m%03d.txt"%n,"w").write("%s:%d [%s]\n- %s\n+ %s\n"%(f,i+1,kind,old.strip(),new.strip()))
+    open(OUT+"/m%03d.diff"%n,"w").write(d)
+    open(OUT+"/m%03d.txt"%n,"w").write("%s:%d [%s]\n- %s\n+ %s\n"%(f,i+1,kind,old.strip(),new.strip()))
 print(len(out), per)
